@@ -51,8 +51,12 @@ def _configs(tier):
         out=dict(data=1, coordinates=2, velocities=3, forces=5, xyz=2, checkpoint_every=3),
     )  # fmt: skip
     c["xl3"] = CR.default_cfg(engine="xl", k=3, steps=6, seed=1)
-    c["ksa"] = CR.default_cfg(engine="ksa", k=4, steps=6, seed=2, mols=["H2O"])
+    c["sh"] = CR.default_cfg(
+        engine="sh", mols=["H2CO"], excited={"n_states": 2, "method": "cis"}, active_state=1, steps=4, eps=1e-7,
+        out=dict(checkpoint_every=2, nonadiabatic=1),
+    )  # fmt: skip
     if tier == "thorough":
+        c["ksa"] = CR.default_cfg(engine="ksa", k=4, steps=6, seed=2, mols=["H2O"])
         for k in range(4, 10):
             c[f"xl{k}"] = CR.default_cfg(engine="xl", k=k, steps=k + 3, seed=1, out=dict(checkpoint_every=3))
         c["bomd_noreuse"] = CR.default_cfg(engine="bomd", reuse_P=False, mols=["H2O"], out=dict(checkpoint_every=3))
